@@ -44,8 +44,12 @@ MODELLED = ["numpy elementwise semantics of COSPricer.xi/psi/u_put (translated p
             "the masked cells uninitialised: modelled by an arbitrary real `uninit` (the theorems show the result never depends on it)",
             "scipy.stats.norm.cdf: abstract Phi (symmetric, [0,1]-valued, monotone) in the theorems; the Gaussian integral PhiR in the "
             "Interval cases; Phi_like PhiR IS proved (C18_PhiR_is_Phi_like: symmetry, monotonicity, and 0 <= PhiR <= 1 from the Gaussian "
-            "integral bound (int_0^x e^{-t^2/2})^2 <= pi/2); PhiR -> 1 at +oo (hypothesis of C18_bs_sigma_to_zero) is NOT proved; that "
+            "integral bound (int_0^x e^{-t^2/2})^2 <= pi/2); PhiR -> 1 at +oo (hypothesis of C18_bs_sigma_to_zero) IS proved since wave 6 "
+            "(C18_PhiR_tail: 1 - e^{-x^2/2}/2 <= PhiR x); PhiR' = phi and the Gaussian identity F phi(d1) = K phi(d2) give the full static shape "
+            "of the generated closed form at PhiR (C18_bs_at_gaussian, C18_bs_strike_derivative, C18_bs_sigma_monotone); that "
             "norm.cdf IS PhiR is tied only by the Interval/integral cases (1e-11)",
+            "bsc F sd K (Proofs/C18_Shape.v) = the undiscounted regular-branch call as a function of forward, total standard deviation and strike; "
+            "bs_call_regular proves the generated bs_call_put PhiR equals df * bsc there, so the shape theorems are about the generated formula",
             "COSPricer._pricing_formula / density: hand models cos_sum / cos_density_impl (finite sums, real part termwise; the complex numbers "
             "cf(u_k) e^{..} enter as the real data A_k resp. B_k), each tied by Interval cases on pricers with 3-5 terms; the compositions "
             "cos_put_price / cos_call_price / cos_digital_price / cos_cdf_value (Model/CosExt.v: generated cos_put, cos_call, cos_digital, cos_cdf, "
@@ -60,6 +64,13 @@ MODELLED = ["numpy elementwise semantics of COSPricer.xi/psi/u_put (translated p
             "imaginary axis x = -iu by textual substitution 1j*x -> u; their composition exp_mgf is hand-written",
             "FFTPricer._call_prices (FFT, interpolation), the characteristic functions and cumulants: NOT modelled -- covered by the "
             "differential tests only",
+            "FFTPricer._sufficient_condition: NOT modelled in Coq; every branch is driven through the public FFTPricer.call with an oracle "
+            "independent of the pricer: infinite E[S^2.5] (tail rate <= 2.5: _fft_guard_cases), `moments[-1] > 1e10` on both sides of the threshold "
+            "against the closed-form Black-Scholes moment S^2.5 exp(2.5(r-d)T + 1.875 sigma^2 T) incl. spots up to 2e4 (the threshold is absolute "
+            "in currency units: every model with spot >= 1e4 and r >= d is refused), and `except ZeroDivisionError` with HEM eta1 exactly on the "
+            "guard's grid {0, .25, ..., 2.5} (_fft_branch_cases); prices returned below the threshold are compared with CFBlackScholes",
+            "the wave-6 closed-form theorems are also evaluated on the implementation (CFBlackScholes, scipy norm.cdf, floats): central strike "
+            "difference of call = -digital (1e-6), call/put not decreasing when sigma crosses the 1e-8 threshold (_bs_shape_checks)",
             "VG = CGMY(Y=0) is proved for real arguments inside the strip of analyticity; the complex extension used by the "
             "characteristic function is covered by the differential test VG vs CGMY"]
 ASSUMPTIONS = ["the differential tests hold on the documented box and regime only; they are tests, not proofs",
@@ -70,9 +81,9 @@ THEOREM_NOTES = {
                         "COS computes the call FROM the put by parity and FFT the put FROM the call, so the put's (call's) pricing sum enters "
                         "as the same free number on both sides -- that the sum itself is the right price is not proved",
     "C18_forward_martingale": "exponential-model layer generated on the imaginary axis x = -iu (1j*x -> u); composition exp_mgf hand-written",
-    "C18_bs_closed_form_partial": "partial: lower bounds and monotonicity/convexity in K of the non-degenerate branch need the Gaussian "
-                                  "identity fwd*phi(d1) = K*phi(d2), not available for an abstract Phi; tested only; Phi_like PhiR is "
-                                  "established since wave 5 (C18_PhiR_is_Phi_like)",
+    "C18_bs_closed_form_partial": "partial over an ABSTRACT Phi: lower bounds and monotonicity/convexity in K of the non-degenerate branch need the "
+                                  "Gaussian identity fwd*phi(d1) = K*phi(d2), not available for an abstract Phi; at the Gaussian integral PhiR they "
+                                  "are proved in C18_bs_at_gaussian (wave 6)",
     "C18_cos_is_integral": "linearity of the integral over the finite cosine family, about the hand model cos_sum/cos_density (tied by Interval "
                            "cases on pricers with 3-5 terms); the series f_N is COSPricer.density only for K = S (see Model/CosSum.v)",
     "C18_density_is_series_specification": "cos_density_impl mirrors cosmethod.py:72-82 and is tied to COSPricer.density by Interval cases",
@@ -93,13 +104,22 @@ THEOREM_NOTES = {
     "C18_bs_digital": "over an abstract Phi_like Phi; instantiated at the Gaussian integral in C18_bs_at_gaussian_partial",
     "C18_PhiR_is_Phi_like": "classical one-dimensional proof of the Gaussian integral bound (differentiation under the integral sign via "
                             "Coquelicot is_derive_RInt_param, substitution u = x s, atan); discharges Phi_like for PhiR",
-    "C18_bs_at_gaussian_partial": "partial: the binding intrinsic legs (call >= df(F-K) for K < F, call >= 0 for K > F), monotonicity and convexity "
-                                  "of call/put in K need the Gaussian density identity F phi(d1) = K phi(d2) and remain differential tests",
+    "C18_bs_at_gaussian_partial": "partial (kept as the wave-5 statement): the binding intrinsic legs, monotonicity and convexity of call/put in K "
+                                  "are now PROVED at PhiR in C18_bs_at_gaussian (wave 6) through the Gaussian density identity F phi(d1) = K phi(d2)",
     "C18_bs_static_bounds_partial": "partial: only the non-binding leg of the intrinsic bound on each side of the forward; the binding legs need the "
                                     "Gaussian identity (C18_bs_lower_bound_needs_gaussian: Phi = 1/2 meets Phi_like and prices a call negative)",
     "C18_bs_lower_bound_needs_gaussian": "a statement about the ABSTRACTION (Phi = 1/2), not about the code: shows the partial theorem is sharp",
-    "C18_bs_sigma_to_zero": "epsilon-delta form; strikes off the forward only (K = F needs continuity of Phi at 0); hypothesis Phi -> 1 at +oo is not "
-                            "discharged for PhiR / norm.cdf",
+    "C18_bs_sigma_to_zero": "epsilon-delta form over an abstract Phi; strikes off the forward only (K = F needs continuity of Phi at 0); the hypothesis "
+                            "Phi -> 1 at +oo is discharged for PhiR in C18_bs_sigma_to_zero_at_gaussian (wave 6), which also covers K = F",
+    "C18_PhiR_tail": "GG(x) <= (pi/4) e^{-x^2/2} inside F = pi/2 gives (2 PhiR - 1)^2 >= 1 - e^{-x^2/2}; Lipschitz clause from PhiR' = phi <= 1 (MVT)",
+    "C18_bs_sigma_to_zero_at_gaussian": "no abstract Phi and no hypothesis on Phi left; every strike incl. K = F (Lipschitz bound); flag = +-1",
+    "C18_bs_strike_derivative": "regular branch; Coquelicot auto_derive through the Gaussian integral (PhiR' = phi by is_derive_RInt); the identity "
+                                "F phi(d1) = K phi(d2) is algebra on exp/ln; ties the GENERATED bs_digital to the strike derivative of the GENERATED call",
+    "C18_bs_at_gaussian": "FULL (not partial) for the closed form at PhiR: both intrinsic legs, upper bounds, monotone and convex (three-point slope "
+                          "form) in K, both branches. It is a theorem about the generated formula evaluated at the Gaussian integral PhiR; that "
+                          "scipy.stats.norm.cdf is PhiR (1e-11) and float rounding are outside it (Interval cases / differential tests)",
+    "C18_bs_sigma_monotone": "vega >= 0 by the mean value theorem on the regular branch, and across the code's threshold sigma < 1e-8 by the binding "
+                             "lower bound (intrinsic <= regular value)",
     "C18_PhiR_monotone": "integrand positive + Chasles; with C18_PhiR_symmetric and the range clause it gives Phi_like PhiR",
 }
 
@@ -886,6 +906,113 @@ def _fft_guard_cases(res, viol):
                  cos=float(COSPricer(model).call(np.array([100.0]), T)[0]))
 
 
+def _fft_branch_cases(res, rng, viol, n_random):
+    """The remaining branches of FFTPricer._sufficient_condition, driven through the public FFTPricer.call with an oracle that is
+    independent of the pricer:  (a) `moments[-1].real > 1e10` on Black-Scholes models, where E[S_T^2.5] = S^2.5 exp(2.5 (r-d) T +
+    1.875 sigma^2 T) is known in closed form: the pricer must raise ValueError iff that number exceeds 1e10 (both sides of the threshold,
+    large spots included: the threshold is absolute in currency units, so EVERY model with spot >= 10^4 and r >= d is refused), and when it
+    does not raise its price is compared with CFBlackScholes (resolved regime hard, otherwise the recorded finding F-C18-4);
+    (b) `except ZeroDivisionError`: HEM with eta1 exactly on the guard's grid u in {0, .25, ..., 2.5} -- the characteristic function,
+    evaluated through the public model.log_characteristic_function at x = -1j*u, divides by eta1 - u = 0 (Python complex arithmetic);
+    E[S^2.5] is infinite there (eta1 <= 2.5), so the pricer must raise ValueError and must not leak the ZeroDivisionError."""
+    import numpy as np
+    from rpylib.model import utils as U_
+    from rpylib.model.levymodel.levymodel import ModelType
+    from rpylib.numerical.fft import FFTPricer
+    from rpylib.numerical.closedform.cfblackscholes import CFBlackScholes
+    fixed = [(100.0, 0.02, 0.0, 1.5, 3.0), (20000.0, 0.02, 0.0, 0.2, 1.0), (10000.0, 0.0, 0.0, 0.2, 1.0), (5000.0, 0.02, 0.0, 0.2, 1.0),
+             (100.0, 0.05, 0.0, 0.9, 1.0), (5000.0, 0.0, 0.01, 0.5, 3.0)]
+    rand = [(rng.choice([100.0, 1000.0, 5000.0, 20000.0]), rng.choice([0.0, 0.02, 0.05]), rng.choice([0.0, 0.01]), rng.uniform(0.1, 1.6),
+             rng.choice([0.5, 1.0, 2.0, 3.0])) for _ in range(n_random)]
+    for spot, r, d, sigma, T in fixed + rand:
+        log_mom = 2.5 * math.log(spot) + 2.5 * (r - d) * T + 1.875 * sigma * sigma * T      # closed form, independent of the pricer
+        if abs(log_mom - math.log(1e10)) < 1e-6:
+            continue
+        large = log_mom > math.log(1e10)
+        model = U_.helper_model(ModelType.BLACKSCHOLES)(spot=spot, r=r, d=d, sigma=sigma)
+        fft = FFTPricer(model)
+        ks = spot * np.array([0.8, 1.0, 1.25])
+        rep = dict(kind="fft_branch", model="BLACKSCHOLES", spot=spot, r=r, d=d, params=dict(sigma=sigma), maturity=T, moment_2p5=math.exp(log_mom))
+        res.count(("fft-branch", spot, r, d, sigma, T), kind="FFT sufficient condition: moment threshold 1e10")
+        try:
+            got, out = fft.call(ks, T), None
+        except ValueError as e:
+            got, out = None, str(e)
+        res.bump("fft_branch", f"BS E[S^2.5] {'>' if large else '<='} 1e10 (spot {spot:g}) -> {'ValueError' if out else 'price'}")
+        if large and out is None:
+            viol("FFT pricer returns prices although E[S^(1+alpha)] exceeds its own threshold 1e10 (its sufficient condition does not fire)",
+                 fft=[float(v) for v in got], **rep)
+        elif not large and out is not None:
+            viol("FFT pricer refuses a Black-Scholes model whose E[S^(1+alpha)] is finite and below its own threshold 1e10", error=out, **rep)
+        elif out is None:
+            with np.errstate(all="ignore"):
+                psi = fft._psi(t=T, v=np.array([0.0, fft.eta]))
+            q = float(abs(psi[1]) / abs(psi[0])) if np.all(np.isfinite(psi)) and abs(psi[0]) > 0 else float("nan")
+            cf = CFBlackScholes(model)
+            ref = np.array([float(cf.call(float(k), T)) for k in ks])
+            dv = np.abs(got - ref)
+            if np.any(dv > TOL * spot):
+                i = int(np.argmax(dv))
+                tag = {} if q >= FFT_Q else dict(finding="F-C18-4")
+                viol("FFT and the Black-Scholes closed form disagree", strike=float(ks[i]), fft=float(got[i]), closed_form=float(ref[i]),
+                     tol=TOL * spot, fft_resolution_q=q, tail_rate=float("inf"), **rep, **tag)
+    us = [0.25 * i for i in range(11)]
+    for eta1 in (1.25, 1.5, 1.75, 2.0, 2.25, 2.5):
+        for T in (0.25, 1.0):
+            kw = dict(sigma=0.05, p=0.6, eta1=eta1, eta2=25.0, intensity=3.0)
+            model = U_.helper_model(ModelType.HEM)(spot=100.0, r=0.02, d=0.0, **kw)
+            zde = False
+            for u in us:          # the observation: the public characteristic function divides by zero at u = eta1
+                try:
+                    with np.errstate(all="ignore"):
+                        complex(model.log_characteristic_function(t=T, x=-1j * np.float64(u)))
+                except ZeroDivisionError:
+                    zde = True
+            res.count(("fft-branch-zde", eta1, T), kind="FFT sufficient condition: ZeroDivisionError branch")
+            rep = dict(kind="fft_branch", model="HEM", spot=100.0, r=0.02, d=0.0, params=kw, maturity=T, tail_rate=eta1)
+            try:
+                v, out = FFTPricer(model).call(100.0, T), "price"
+            except ValueError:
+                v, out = None, "ValueError"
+            except ZeroDivisionError:
+                v, out = None, "ZeroDivisionError"
+            res.bump("fft_branch", f"HEM pole eta1={eta1} on the guard's grid: cf raises ZeroDivisionError={zde} -> {out}")
+            if out == "price":
+                viol("FFT pricer returns prices although E[S^(1+alpha)] is infinite (its sufficient condition does not fire)",
+                     fft=float(np.squeeze(v)), **rep)
+            elif out == "ZeroDivisionError":
+                viol("FFT pricer leaks ZeroDivisionError from the characteristic function at a pole instead of refusing the model (ValueError)", **rep)
+
+
+def _bs_shape_checks(res, rng, viol, n_cases):
+    """Differential tests of the wave-6 closed-form theorems ON THE IMPLEMENTATION (CFBlackScholes with scipy's norm.cdf, floats):
+    C18_bs_strike_derivative: the central difference of call in the strike is -digital (h = 1e-4 K; truncation O(h^2), rounding ~1e-12/h);
+    C18_bs_sigma_monotone across the code's threshold: call/put at sigma just below 1e-8 (intrinsic) <= at 1e-8 and 2e-8 (regular branch)."""
+    from rpylib.model import utils as U_
+    from rpylib.model.levymodel.levymodel import ModelType
+    from rpylib.numerical.closedform.cfblackscholes import CFBlackScholes
+    for _ in range(n_cases):
+        spot = rng.choice([1.0, 50.0, 100.0]); r = rng.choice([0.0, 0.02, 0.05]); d = rng.choice([0.0, 0.01])
+        sigma = rng.uniform(*BOX["BLACKSCHOLES"]["sigma"]); T = rng.choice(MATURITIES)
+        K = spot * math.exp(rng.uniform(-0.5, 0.5))
+        cf = CFBlackScholes(U_.helper_model(ModelType.BLACKSCHOLES)(spot=spot, r=r, d=d, sigma=sigma))
+        h = 1e-4 * K
+        slope = (float(cf.call(K + h, T)) - float(cf.call(K - h, T))) / (2 * h)
+        dig = float(cf.digital(K, T))
+        res.count(("bs-shape", spot, r, d, sigma, T, K), kind="closed form: dCall/dK = -digital")
+        if abs(slope + dig) > 1e-6:
+            viol("closed-form digital is not minus the strike derivative of the closed-form call", kind="bs_shape", spot=spot, r=r, d=d,
+                 sigma=sigma, maturity=T, strike=K, slope=slope, digital=dig)
+        lo = CFBlackScholes(U_.helper_model(ModelType.BLACKSCHOLES)(spot=spot, r=r, d=d, sigma=0.99e-8))
+        for s2 in (1e-8, 2e-8, sigma):
+            hi = CFBlackScholes(U_.helper_model(ModelType.BLACKSCHOLES)(spot=spot, r=r, d=d, sigma=s2))
+            for quote in ("call", "put"):
+                a, b = float(getattr(lo, quote)(K, T)), float(getattr(hi, quote)(K, T))
+                if a > b + 1e-12 * max(spot, K):
+                    viol(f"closed-form {quote} decreases when sigma crosses the degenerate threshold 1e-8 upwards", kind="bs_shape", spot=spot, r=r, d=d,
+                         sigma=s2, maturity=T, strike=K, below=a, above=b)
+
+
 def _rate_sweep(res, rng, viol):
     """A pricer must not remember a model that no longer exists, nor an earlier state of a live one: (1) sweep over the rate building a
     FRESH model per value with identical Levy parameters inside a function (the previous model is garbage: del + gc.collect(); CPython
@@ -970,6 +1097,8 @@ def correspond(res):
         _degenerate_bs(res, viol)
         guard = _guard_cases(res, rng, viol)
         _fft_guard_cases(res, viol)
+        _fft_branch_cases(res, random.Random(res.seed + 36), viol, 10 if quick else 60)
+        _bs_shape_checks(res, random.Random(res.seed + 37), viol, 60 if quick else 600)
         _rate_sweep(res, rng, viol)
         _differential(res, rng, 14 if quick else 150, 6 if quick else 60, viol)
     _run_lemmas(res, "cases_coefficients", coef + simp + guard)
@@ -1020,6 +1149,45 @@ def replay(path):
         except ValueError as e:
             print("raises ValueError:", e)
             return 0
+    if data.get("kind") == "bs_shape":
+        from rpylib.model import utils as U_
+        from rpylib.model.levymodel.levymodel import ModelType
+        from rpylib.numerical.closedform.cfblackscholes import CFBlackScholes
+        mk = lambda sg: CFBlackScholes(U_.helper_model(ModelType.BLACKSCHOLES)(spot=data["spot"], r=data["r"], d=data["d"], sigma=sg))  # noqa
+        K, T = data["strike"], data["maturity"]
+        if "slope" in data:
+            cf, h = mk(data["sigma"]), 1e-4 * K
+            slope, dig = (float(cf.call(K + h, T)) - float(cf.call(K - h, T))) / (2 * h), float(cf.digital(K, T))
+            print("central strike difference of call", slope, " -digital", -dig)
+            return 1 if abs(slope + dig) > 1e-6 else 0
+        bad = 0
+        for quote in ("call", "put"):
+            a, b = float(getattr(mk(0.99e-8), quote)(K, T)), float(getattr(mk(data["sigma"]), quote)(K, T))
+            print(quote, "at sigma 0.99e-8:", a, " at sigma", data["sigma"], ":", b)
+            bad |= a > b + 1e-12 * max(data["spot"], K)
+        return 1 if bad else 0
+    if data.get("kind") == "fft_branch":
+        from rpylib.model import utils as U_
+        from rpylib.model.levymodel.levymodel import ModelType
+        from rpylib.numerical.fft import FFTPricer
+        model = U_.helper_model(ModelType[data["model"]])(spot=data["spot"], r=data["r"], d=data["d"], **data["params"])
+        ks = data["spot"] * np.array([0.8, 1.0, 1.25])
+        try:
+            got = FFTPricer(model).call(ks, data["maturity"])
+        except (ValueError, ZeroDivisionError) as e:
+            print(f"raises {type(e).__name__}: {e}")
+            refused_ok = isinstance(e, ValueError) and (data.get("tail_rate", 99) <= 2.5 or data.get("moment_2p5", 0) > 1e10)
+            return 0 if refused_ok else 1
+        print("FFT call(0.8 S, S, 1.25 S) =", [float(v) for v in got])
+        if data.get("tail_rate", 99) <= 2.5 or data.get("moment_2p5", 0) > 1e10:
+            return 1
+        if data["model"] == "BLACKSCHOLES":
+            from rpylib.numerical.closedform.cfblackscholes import CFBlackScholes
+            cf = CFBlackScholes(model)
+            ref = np.array([float(cf.call(float(k), data["maturity"])) for k in ks])
+            print("closed form:", [float(v) for v in ref])
+            return 1 if np.any(np.abs(got - ref) > TOL * data["spot"]) else 0
+        return 0
     if data.get("kind") != "differential":
         print("replay: re-run ./check C18 to re-evaluate this class of input")
         return 1
@@ -1066,10 +1234,14 @@ LEVEL_TEXT = ("Proof, PARTIAL: Coq theorems (over R with Coquelicot; standard re
               "form; (10) the truncation window [c1 - delta, c1 + delta] (generated) is non-degenerate for l, c2 > 0 and contains 0 iff |c1| <= delta; "
               "(11) CFBlackScholes.digital (generated) is a discounted probability, non-increasing in the strike in both branches, call = df F Phi(d1) - K "
               "digital; the non-binding legs of the intrinsic bounds (the binding ones provably do NOT follow from an abstract Phi); the degenerate "
-              "branch is the sigma -> 0+ limit of the regular one for strikes off the forward (Phi -> 1 at +oo assumed, not proved for PhiR). "
+              "branch is the sigma -> 0+ limit of the regular one for strikes off the forward (Phi -> 1 at +oo assumed); "
+              "(12) AT the Gaussian integral PhiR, with no abstract Phi left: 1 - e^{-x^2/2}/2 <= PhiR x (so PhiR -> 1), the sigma -> 0+ limit for every "
+              "strike incl. K = F, F phi(d1) = K phi(d2), dCall/dK = -digital (generated bs_digital), and the FULL static shape of the generated "
+              "closed form in both branches: df (F-K)^+ <= call <= df F, df (K-F)^+ <= put <= df K, call non-increasing / put non-decreasing / both "
+              "convex in the strike, both non-decreasing in sigma across the 1e-8 threshold. "
               "Model and implementation are tied by ~100 Interval/integral case lemmas per run (incl. the window, the public entry points "
               "put / call / digital / cdf of few-term pricers, butterflies, the closed-form digital in both branches). NOT proved and reported only as differential "
-              "TESTS over a documented box: every price bound, monotonicity/convexity in the strike, digital bounds/monotonicity, density "
+              "TESTS over a documented box: every COS / FFT price bound, monotonicity/convexity in the strike (proved for the closed form at PhiR only), COS digital bounds/monotonicity, density "
               "non-negative and integrating to one, truncation error, COS/FFT/closed-form and VG/CGMY price agreement.")
 LEVEL_NOTE = ("Trusted: Coq kernel, Coquelicot, Interval (reflexive interval arithmetic inside vm_compute); stdlib real/classical axioms; "
               "py2coq incl. its pointwise reading of numpy code and the substitution 1j*x -> u; the differential tests are tests.")
